@@ -137,6 +137,9 @@ func (p *Persister) Save(key string) error {
 		logg.Tracef("state and cache flushed from persister")
 		p.Memory.Reset()
 		p.Memory.Pop()
+		// Reset keeps the size entries of the levels it drops, and nothing above clears the last value
+		p.Memory.Sizes = make(map[string]uint16)
+		p.Memory.LastValue = ""
 		p.State = p.State.CloneEmpty()
 	}
 	return nil
